@@ -466,7 +466,8 @@ def standin_groups(tier, seed):
                 for order in perms:
                     g = Group(None, csg, list(order))
                     n += 1
-                    ok = (g == ref) and hash(g) == hash(ref) and g.name == canon and (g == canon) and ({ref: 1}.get(canon) == 1) and ({canon: 1}.get(g) == 1)
+                    ok = (g == ref) and hash(g) == hash(ref) and g.name == canon and (g == canon) and (canon == g) and not (g != canon) and not (canon != g) \
+                        and not (g != ref) and ({ref: 1}.get(canon) == 1) and ({canon: 1}.get(g) == 1)
                     for sp in spell(order):
                         n += 1
                         try:
